@@ -559,6 +559,7 @@ def explore(ct, max_paths=600, ieee=False, prefix=()):
         dec = stack.pop()
         path = S.Path(dec, ieee=ieee)
         path.sqrt_factor = bool(ct.opts.get('sqrt_factor', False))
+        path.lazy_abs = bool(ct.opts.get('lazy_abs', False))
         S.set_path(path)
         ctx = Ctx('sym', path=path)
         err = None
